@@ -59,7 +59,7 @@ structure St (Id : Type) where
 
 /-- the error values the functions return -/
 inductive Ret where
-  | ok | errAdd | errRemove | errInvalidUID | errFile
+  | ok | errAdd | errRemove | errInvalidUID | errFile | errExists | errWrite
   deriving DecidableEq, Repr, Inhabited
 
 /-- The Go code keeps a `p` (an index) and a flag telling whether `p` indexes `HashHead` or `NextInHash`. -/
@@ -158,6 +158,26 @@ def getUserID (s : St Id) (uid : Int) : M (Option Id) :=
   if k < 0 ∨ k ≥ (e.MAX : Int) then pure none else do
     let id ← idxI s.userid k
     pure (some id)
+
+/-! ### ptt.SetupNewUser — the only caller of SetUserID, i.e. the code that hands out slots
+
+Index level: the two checks of the id (before and under the passwd lock), the search of a free slot
+(`DoSearchUserRaw("")`), `SetUserID(uid, id)` and then the write of the record to .PASSWDS (`canWrite`: the file can be
+opened for writing).  tryCleanUser (the sweep of expired accounts when no slot is free) is switched off in the harness
+(a fresh `.fresh` file), SetUMoney does not touch the index.  Returns the state, the error and the uid that was assigned
+(0: none). -/
+
+def setupNewUser (s : St Id) (id : Id) (canWrite : Bool) : M (St Id × Ret × Int) := do
+  let (u1, _) ← doSearchUserRaw e s id
+  if u1 ≠ 0 then pure (s, .errExists, 0) else do
+    let _ ← doSearchUserRaw e s e.zero          -- lazy search of a free slot, before the lock
+    let (u2, _) ← doSearchUserRaw e s id          -- again under the lock
+    if u2 ≠ 0 then pure (s, .errExists, 0) else do
+      let (uid, _) ← doSearchUserRaw e s e.zero
+      let (s', r) ← setUserID e s uid id
+      if r ≠ .ok then pure (s', r, 0)
+      else if canWrite then pure (s', .ok, uid)
+      else pure (s', .errWrite, uid)    -- the unchanged code returns the error and leaves the slot assigned
 
 /-! ### the loader -/
 
@@ -436,5 +456,6 @@ def showAttach : AttachRet → String
 
 def showRet : Ret → String
   | .ok => "ok" | .errAdd => "erradd" | .errRemove => "errremove" | .errInvalidUID => "errinvaliduid" | .errFile => "errfile"
+  | .errExists => "errexists" | .errWrite => "errwrite"
 
 end PttVerif.C04
